@@ -33,19 +33,28 @@ def set_handler(fn):
     iscsi_mod.handler = (lambda cdb, dout, din, task=None: fn(cdb, dout, din)) if fn else None
 
 
-def make_sgio(path=None, **kw):
+def make_sgio(path=None, handler=None, **kw):
     from pyscsi.pyscsi.scsi_device import SCSIDevice
 
     path = path or node_path()
     if not os.path.exists(path):
         make_node(path)
+    if handler is not None:
+        sgio_mod.routes[path] = handler
     return SCSIDevice(path, **kw)
 
 
-def make_iscsi(url=ISCSI_URL, initiator=INITIATOR):
+def make_iscsi(url=ISCSI_URL, initiator=INITIATOR, handler=None):
     from pyscsi.pyiscsi.iscsi_device import ISCSIDevice
 
+    if handler is not None:
+        iscsi_mod.routes[url] = handler
     return ISCSIDevice(url, initiator)
+
+
+def clear_routes():
+    sgio_mod.routes.clear()
+    iscsi_mod.routes.clear()
 
 
 def log_mark():
